@@ -97,6 +97,19 @@ def cases(tier, seed):
             out.append({"id": "robust-size:%s:x=%r" % (sh, x),
                         "kind": "robust", "shape": sh, "x": x, "beta": 0.4,
                         "gamma": 0.7})
+    # index times size beyond the Fortran work arrays of the interior
+    # Bessel functions (x within the property's sphere range for two of them)
+    for sh, x, n in (("sphere", 20.0, 10 + 60j), ("sphere", 20.0, 1.5 + 100j),
+                     ("sphere", 100.0, 12.0), ("spheroid3", 90.0, 6.0),
+                     ("sphere", 20.0, 40.0), ("cyl2", 50.0, 20.0)):
+        out.append({"id": "robust-index:%s:x=%r:n=%r" % (sh, x, n),
+                    "kind": "robust", "shape": sh, "x": x, "beta": 0.4,
+                    "gamma": 0.7, "n": [complex(n).real, complex(n).imag]})
+    # radii that are an odd number of quarter wavelengths (outside or
+    # inside the sphere): cos(kr) = 0 to the last bit
+    for i in range(len(SPECIAL_R)):
+        out.append({"id": "sphere-quarter-wave#%d" % i,
+                    "kind": "spherespecial", "i": i})
     # sizes beyond the Fortran dimension limits
     for sh in ROB_SHAPES[:2]:
         for x in ([150.0] if tier == "quick" else [105.0, 150.0, 250.0]):
@@ -367,6 +380,41 @@ def _run_sym(case, ck):
     return digest(*fps)
 
 
+# (wavelength, medium index, radius, particle index): k r or m k r is an odd
+# multiple of pi/2 as exactly as floating point allows
+SPECIAL_R = [(1.0, 1.0, 0.75, 1.5), (1.0, 1.0, 0.25, 1.5),
+             (0.5, 1.0, 0.125, 1.33), (0.66, 1.0, 0.165, 1.59),
+             (1.0, 1.0, 1.0 / 6.0, 1.5), (1.0, 1.0, 0.1875, 4.0 / 3.0),
+             (1.0, 1.0, 0.5, 1.5), (1.0, 1.0, 1.0, 1.5)]
+
+
+def _run_spherespecial(case, ck):
+    import holopy as hp
+    from holopy.scattering import Sphere, Mie, Tmatrix, calc_scat_matrix
+    wl, nmed, r, n = SPECIAL_R[case["i"]]
+    sph = Sphere(n=n, r=r, center=CENTER)
+    th = np.repeat(THETA, len(PHI))
+    ph = np.tile(PHI, len(THETA))
+    det = hp.detector_points(theta=th, phi=ph)
+    T = calc_scat_matrix(det, sph, nmed, wl, theory=Mie()).values
+    ck.trans += 1
+    try:
+        S = calc_scat_matrix(det, sph, nmed, wl, theory=Tmatrix()).values
+        ck.trans += 1
+    except Exception as e:
+        ck.true("sphere-scatmat", False, "Tmatrix refuses a sphere of radius "
+                "%r at wavelength %r (index %r in %r): %s: %s" %
+                (r, wl, n, nmed, type(e).__name__, e))
+        return "exception:" + type(e).__name__
+    e = float(np.abs(S - T).max() / np.abs(T).max())
+    ck.metric("sphere-scatmat", e)
+    ck.true("sphere-scatmat", e <= 1e-4, "calc_scat_matrix(Tmatrix) for a "
+            "sphere of radius %r at wavelength %r (index %r in %r, k r = "
+            "%.6f pi/2) differs from Mie by %.2e" %
+            (r, wl, n, nmed, 2 * math.pi * nmed * r / wl / (math.pi / 2), e))
+    return digest(fp_values(S))
+
+
 def _run_robustdet(case, ck):
     import holopy as hp
     from holopy.scattering import (Tmatrix, Sphere, calc_scat_matrix,
@@ -409,14 +457,18 @@ def _run_robust(case, ck):
     from holopy.scattering import Tmatrix, calc_holo
     sh, x, b, g = case["shape"], case["x"], case["beta"], case["gamma"]
     det = H.det_points([[0.0, 0.0, 0.0], [0.9, 0.2, 0.0], [-0.5, 1.1, 0.0]])
+    nidx = complex(*case["n"]) if "n" in case else 1.59
+    if isinstance(nidx, complex) and nidx.imag == 0:
+        nidx = nidx.real
     try:
         if sh == "sphere":
             from holopy.scattering import Sphere
-            s = Sphere(n=1.59, r=x / H.K,
+            s = Sphere(n=nidx, r=x / H.K,
                        center=(0.2, 0.1, max(8.0, 3 * x / H.K)))
         else:
             s = None
-        s = s or _shape(sh, x, b, g, center=(0.2, 0.1, max(8.0, 3 * x / H.K)))
+        s = s or _shape(sh, x, b, g, center=(0.2, 0.1, max(8.0, 3 * x / H.K)),
+                        n=nidx)
         h = calc_holo(det, s, H.NMED, H.WL, (1, 0), theory=Tmatrix()).values
         ck.trans += 1
     except Exception as e:
@@ -452,5 +504,6 @@ def run_case(case):
         fp, outcome = _run_robustdet(case, ck)
         return ck.result(fp=fp, outcome=outcome)
     fp = {"sphere": _run_sphere, "equalaxes": _run_equalaxes,
-          "sym": _run_sym, "history": _run_history}[case["kind"]](case, ck)
+          "sym": _run_sym, "history": _run_history,
+          "spherespecial": _run_spherespecial}[case["kind"]](case, ck)
     return ck.result(fp=fp)
